@@ -106,6 +106,7 @@ static bool gen_c09(uint64_t seed, const std::string &tier, uint64_t i, Plan &p)
     p.knobs.erase("smtproutes"); Json zone = Json::obj(); Json fail = Json::obj(); fail.set("r.example", r.chance(0.6) ? "soft" : "hard"); zone.set("fail", fail); p.knobs.set("zone", zone);
     lab = "dns " + fail.gets("r.example");
   }
+  if (r.chance(0.08)) { Fault f; f.actor = "qmail-remote"; f.call = C_MALLOC; f.nth = (int)r.range(1, 80); f.kind = "null"; p.faults.push_back(f); }
   add_short_io(r, p, "qmail-remote", 0.2, false);
   p.label = lab + " rcpts=" + std::to_string(nr);
   return true;
